@@ -63,6 +63,12 @@ CLAIMED = {
             "a reference model.",
             "Bounds: 3 species, 2 rules, ids {generated,r_1,r_2,q_1,x}, 9 stoichiometries; labels/ids/coefficients are "
             "realised (hashed/cast) so the solver enumerates the finite history space; longer histories are outside."),
+    "C16": ("Bounded symbolic model checking of the three view round trips on the real conversion code: hypergraph -> bipartite "
+            "(string and integer ids, edge ids, mol labels) -> hypergraph; hypergraph -> reaction strings -> parser; "
+            "hypergraph -> species graph -> hypergraph (reactions with both sides), each compared for exact equality of "
+            "ids, rules, coefficients and labels.",
+            "Bounds: <=3 species x <=3 reactions, coefficient sets incl. multi-digit values, catalysts, duplicates, "
+            "source/sink; names {A,B,C1,Fe}; all values are realised (hashed/cast/formatted): solver-driven exhaustion."),
     "C19": ("Bounded symbolic model checking of DeficiencyAnalyzer on the real conversion + complex-graph code: all networks "
             "within the bounds are enumerated by the solver; complexes, linkage classes, weak reversibility, rank, "
             "deficiency and linkage deficiencies are compared with exact (rational) definitions.",
